@@ -23,6 +23,8 @@ struct RustExtension {
 impl TypeSpace {
     pub(crate) fn convert_rust_extension(&mut self, schema: &SchemaObject) -> Option<TypeEntry> {
         let x_rust = schema.extensions.get(RUST_TYPE_EXTENSION)?;
+        #[cfg(typify_verif)]
+        crate::verif::event("xrust", || x_rust.clone());
 
         let Ok(RustExtension {
             crate_name,
